@@ -72,7 +72,7 @@ def op_strategy(weights):
         if k == "probe_get":
             return ["probe_get"]
         if k == "mis":
-            return ["mis", b % 9, a % 3, c % 6]
+            return ["mis", b % 9, a % 4, c % 6, (b // 9) % 2]
         raise ValueError(k)
     return st.tuples(st.integers(0, n - 1), st.integers(0, 11), st.integers(-2, 2), st.integers(0, 41),
                      st.integers(0, 11)).map(build)
